@@ -39,10 +39,7 @@ V8 = (0, 1, 63, 64, 65, 127, 128, 130)          # byte sizes: ties after alignme
 V6 = (1, 64, 65, 128, 129, 256)
 N6 = (1, 15, 16, 17, 32, 33)                     # numels: 4*n and 2*n around multiples of 64
 
-HEADER = """From Coq Require Import ZArith List Bool String.
-From Shampoo Require Import Show Assign AssignProofs AssignChecker.
-Import ListNotations. Open Scope Z_scope.
-"""
+
 
 
 # --------------------------------------------------------------------------------------
@@ -77,6 +74,28 @@ def _call_assign(cls, attr, gs, sizes):
 def impl_assign(chunk):
     cl = _classes()
     return [[_call_assign(*cl[c], gs, sizes) for c in COPIES] for sizes, gs in chunk]
+
+
+def _packable(o, n):
+    return (not isinstance(o, str)) and len(o) == n and all(0 <= r < 64 and a >= 0 for a, r in o)
+
+
+def impl_assign_blocks(chunk):
+    """chunk: list of (prefix, vals, k, gs).  Per block and copy: the packed outputs (aligned*64+rank, concatenated over the cases in
+    itertools.product order), or the explicit list of outputs if some output cannot be packed."""
+    cl = _classes()
+    res = []
+    for prefix, vals, k, gs in chunk:
+        inputs = [prefix + t for t in itertools.product(vals, repeat=k)]
+        per = {}
+        for c in COPIES:
+            outs = [_call_assign(*cl[c], gs, s) for s in inputs]
+            if all(_packable(o, len(s)) for o, s in zip(outs, inputs)):
+                per[c] = ("packed", tuple(a * 64 + r for o in outs for a, r in o))
+            else:
+                per[c] = ("explicit", tuple(outs))
+        res.append(per)
+    return res
 
 
 def _shape_of(n):
@@ -300,16 +319,20 @@ def impl_cluster(chunk):
 # Coq literals
 
 
+def zn(x):
+    return str(int(x)) if x >= 0 else f"({int(x)})"
+
+
 def zl(xs):
-    return "[" + "; ".join(str(int(x)) if x >= 0 else f"({int(x)})" for x in xs) + "]"
+    return "[" + "; ".join(zn(x) for x in xs) + "]"
 
 
 def zpairs(ps):
     return "[" + "; ".join(f"({zn(a)}, {zn(b)})" for a, b in ps) + "]"
 
 
-def zn(x):
-    return str(int(x)) if x >= 0 else f"({int(x)})"
+def flat(ps):
+    return zl([x for p in ps for x in p])
 
 
 def bl(bs):
@@ -326,32 +349,47 @@ def obs_lit(o):
     return f"(ObsAssigned {zpairs(o)})"
 
 
-def eval_bools(ck: Check, tag: str, items: list[str], per_file: int = 1500, max_bytes: int = 60000) -> str:
-    """One boolean per item, computed by coqc.  Files hold <= per_file items and <= max_bytes of text (elaboration time
-    grows with the text), and the largest files are started first so that the 16 coqc processes finish together."""
-    if not items:
-        return ""
+HEADER = """From Coq Require Import ZArith List Bool String.
+From Shampoo Require Import Show Assign AssignChecker.
+From ShampooExec Require Import RunC14.
+Import ListNotations. Open Scope Z_scope.
+"""
+
+
+def eval_lists(ck: Check, tag: str, entries: list[tuple[str, int]], max_bytes: int = 40000) -> list[str]:
+    """entries: (Coq term of type `list bool`, its expected length).  Returns the computed T/F string of every entry.
+    Elaboration time grows with the text of a file, so files are cut by size and the largest are started first (the 16
+    coqc processes then finish together)."""
+    if not entries:
+        return []
     files, cur, size = [], [], 0
-    for i, it in enumerate(items):
-        if cur and (len(cur) >= per_file or size + len(it) > max_bytes):
+    for i, (e, _) in enumerate(entries):
+        if cur and size + len(e) > max_bytes:
             files.append(cur)
             cur, size = [], 0
         cur.append(i)
-        size += len(it) + 2
+        size += len(e) + 8
     files.append(cur)
-    order = sorted(range(len(files)), key=lambda f: -sum(len(items[i]) for i in files[f]))
+    order = sorted(range(len(files)), key=lambda f: -sum(len(entries[i][0]) for i in files[f]))
     srcs = {}
     for f in order:
-        srcs[f"{tag}_{f:05d}"] = (HEADER + "Definition results : list bool := [\n" + ";\n".join(items[i] for i in files[f])
-                                   + "].\nEval vm_compute in show_bools results.\n")
+        body = ";\n".join(entries[i][0] for i in files[f])
+        srcs[f"{tag}_{f:05d}"] = HEADER + "Definition results : list bool := List.concat [\n" + body + "].\nEval vm_compute in show_bools results.\n"
     out = ck.eval_coq(srcs)
-    flat = [None] * len(items)
+    res = [None] * len(entries)
     for f, idx in enumerate(files):
-        res = out[f"{tag}_{f:05d}"]
-        assert res and len(res[0]) == len(idx), (tag, f, len(idx), res[:1])
-        for i, b in zip(idx, res[0]):
-            flat[i] = b
-    return "".join(flat)
+        r = out[f"{tag}_{f:05d}"]
+        want = sum(entries[i][1] for i in idx)
+        assert r and len(r[0]) == want, (tag, f, want, [len(x) for x in r])
+        pos = 0
+        for i in idx:
+            res[i] = r[0][pos:pos + entries[i][1]]
+            pos += entries[i][1]
+    return res
+
+
+def eval_bools(ck: Check, tag: str, items: list[str]) -> str:
+    return "".join(eval_lists(ck, tag, [("[" + it + "]", 1) for it in items]))
 
 
 # --------------------------------------------------------------------------------------
@@ -387,33 +425,36 @@ def opt_makespan(sizes, m):
 
 
 # --------------------------------------------------------------------------------------
+# generators
+
+V4 = (1, 64, 65, 130)
+T4 = (64, 100, 128, 192)
+# worst-case families of LPT (ratio 4/3 - 1/(3m)): 2m+1 jobs 2m-1,2m-1,...,m+1,m+1,m,m,m   (in units of 64 bytes)
+TIGHT = [((192, 192, 128, 128, 128), 2), ((320, 320, 256, 256, 192, 192, 192), 3), ((448, 448, 384, 384, 320, 320, 256, 256, 256), 4),
+         ((190, 129, 128, 65, 127), 2), ((64, 64, 64, 64, 64, 64, 64), 3)]
 
 
-def gen_assign_inputs(ck: Check, thorough: bool):
-    inputs = []
-    exh = []
-    if thorough:
-        scopes = [(V8, 6), ((64, 100, 128, 192), 7)]
-    else:
-        scopes = [(V8, 4), (V6, 5), ((1, 64, 65, 130), 6)]
-    seen = set()
-    for vals, maxn in scopes:
-        for n in range(maxn + 1):
-            for sizes in itertools.product(vals, repeat=n):
-                if sizes in seen:
-                    continue
-                seen.add(sizes)
+def gen_assign_blocks(thorough: bool):
+    """Exhaustive part of stream A: (prefix, vals, k, gs) stands for all lists prefix + t, t in vals^k, with group size gs."""
+    scopes = [(V8, 0, 6), (T4, 7, 7)] if thorough else [(V8, 0, 4), (V6, 5, 5), (V4, 5, 6)]
+    blocks = []
+    for vals, minn, maxn in scopes:
+        for n in range(minn, maxn + 1):
+            k = n
+            while len(vals) ** k > 1300:
+                k -= 1
+            for prefix in itertools.product(vals, repeat=n - k):
                 for gs in (1, 2, 3, 4):
-                    exh.append((sizes, gs))
-    inputs += exh
-    # group size 0 (heappop on an empty heap) and a few larger groups on the small lists
-    inputs += [((), 0), ((64,), 0), ((1, 2), 0)]
-    rnd = []
-    nrand = 20000 if thorough else 1500
+                    blocks.append((prefix, vals, k, gs))
+    return blocks
+
+
+def gen_assign_random(ck: Check, thorough: bool):
+    inputs = [((), 0), ((64,), 0), ((1, 2), 0)] + list(TIGHT)      # group size 0: heappop on an empty heap
+    nrand = 12000 if thorough else 500
     maxn, maxg = (256, 32) if thorough else (64, 16)
     for _ in range(nrand):
-        kind = ck.rng.random()
-        n = ck.rng.randint(0, maxn) if kind < 0.8 else ck.rng.randint(0, 8)
+        n = ck.rng.randint(0, maxn) if ck.rng.random() < 0.7 else ck.rng.randint(0, 9)
         gs = ck.rng.randint(1, maxg)
         ds = ck.rng.choice((4, 2, 2))
         style = ck.rng.random()
@@ -425,9 +466,8 @@ def gen_assign_inputs(ck: Check, thorough: bool):
             numels = [ck.rng.choice((1, 7, 16, 17, 31, 32, 33, 48, 64, 65)) for _ in range(n)]
         else:
             numels = [ck.rng.randint(1, 5000) for _ in range(n)]
-        rnd.append((tuple(x * ds for x in numels), gs))
-    inputs += rnd
-    return inputs, len(exh), len(rnd)
+        inputs.append((tuple(x * ds for x in numels), gs))
+    return inputs
 
 
 def gen_buffer_inputs(ck: Check, thorough: bool):
@@ -442,10 +482,10 @@ def gen_buffer_inputs(ck: Check, thorough: bool):
                     inputs.append((numels, dt, gs, k % gs))
                     k += 1
     nexh = len(inputs)
-    nrand = 4000 if thorough else 400
+    nrand = 3000 if thorough else 250
     maxn, maxg = (128, 32) if thorough else (64, 16)
     for _ in range(nrand):
-        n = ck.rng.randint(1, maxn if ck.rng.random() < 0.6 else 10)
+        n = ck.rng.randint(1, maxn if ck.rng.random() < 0.5 else 10)
         gs = ck.rng.randint(1, maxg)
         dt = ck.rng.choice(("fp32", "fp16", "bf16"))
         if ck.rng.random() < 0.5:
@@ -458,7 +498,7 @@ def gen_buffer_inputs(ck: Check, thorough: bool):
 
 def gen_cluster_jobs(ck: Check, thorough: bool):
     jobs = []
-    per_copy = 200 if thorough else 24
+    per_copy = 200 if thorough else 20
     for copy in COPIES:
         for k in range(per_copy):
             gs = ck.rng.choice((1, 2, 2, 3, 4, 4, 8) if thorough else (1, 2, 2, 3, 4))
@@ -466,11 +506,11 @@ def gen_cluster_jobs(ck: Check, thorough: bool):
             R = gs * ngroups
             S = 1 if copy == "ddp" else ck.rng.choice((1, 2, 3))
             mpd = ck.rng.choice((2, 3, 4, 8))
-            nparams = ck.rng.randint(1, 5)
+            nparams = ck.rng.randint(1, 5 if thorough else 4)
             shapes = []
             for _ in range(nparams):
                 order = ck.rng.choice((1, 2, 2, 3))
-                shape = tuple(ck.rng.randint(1, 9) for _ in range(order))
+                shape = tuple(ck.rng.randint(1, 9 if thorough else 7) for _ in range(order))
                 numel = math.prod(shape)
                 if copy == "hsdp":
                     a = ck.rng.randint(0, numel)
@@ -495,51 +535,114 @@ def gen_cluster_jobs(ck: Check, thorough: bool):
     return jobs
 
 
+# --------------------------------------------------------------------------------------
+
+
+def block_inputs(blk):
+    prefix, vals, k, gs = blk
+    return [prefix + t for t in itertools.product(vals, repeat=k)]
+
+
+def unpack_outputs(inputs, packed):
+    outs, pos = [], 0
+    for s in inputs:
+        outs.append(tuple((v // 64, v % 64) for v in packed[pos:pos + len(s)]))
+        pos += len(s)
+    return outs
+
+
 def run(ck: Check) -> None:
     common.assert_repo_imports()
     t0 = time.time()
-    ck.coq_props()
+    ck.coq_props(extra_targets=["exec/RunC14.vo"])
     t_props = time.time() - t0
     thorough = ck.tier == "thorough"
     import logging
     logging.disable(logging.CRITICAL)
 
-    a_inputs, n_exh, n_rnd = gen_assign_inputs(ck, thorough)
+    a_blocks = gen_assign_blocks(thorough)
+    a_rand = gen_assign_random(ck, thorough)
     b_inputs, nb_exh = gen_buffer_inputs(ck, thorough)
     c_jobs = gen_cluster_jobs(ck, thorough)
     with mp.get_context("fork").Pool(16) as pool:
-        ra = pool.map_async(impl_assign, list(common.chunks(a_inputs, 400)))
+        rk = pool.map_async(impl_assign_blocks, list(common.chunks(a_blocks, 8)))
+        ra = pool.map_async(impl_assign, list(common.chunks(a_rand, 100)))
         rb = pool.map_async(impl_buffers, list(common.chunks(b_inputs, 40)))
         rc = pool.map_async(impl_cluster, list(common.chunks(c_jobs, 2)))
+        k_out = [x for ch in rk.get() for x in ch]
         a_out = [x for ch in ra.get() for x in ch]
         b_out = [x for ch in rb.get() for x in ch]
         c_out = [x for ch in rc.get() for x in ch]
     t_impl = time.time() - t0 - t_props
 
-    # ---------------- stream A ----------------
+    # ---------------- stream A: exhaustive blocks (inputs enumerated inside Coq) ----------------
+    # a group = the copies of one block that produced the same outputs; one Coq evaluation per group
+    k_groups = []          # (block index, copies, "packed"/"explicit", data)
+    for bi, per in enumerate(k_out):
+        byval = {}
+        for c in COPIES:
+            byval.setdefault(per[c], []).append(c)
+        for (kind, data), copies in byval.items():
+            k_groups.append((bi, copies, kind, data))
+
+    def k_entry(g, fn_block, fn_case):
+        bi, copies, kind, data = g
+        prefix, vals, k, gs = a_blocks[bi]
+        n = len(vals) ** k
+        if kind == "packed":
+            return (f"{fn_block} {zl(prefix)} {zl(vals)} {k}%nat {gs} {zl(data)}", n)
+        return ("[" + "; ".join(fn_case(s, gs, o) for s, o in zip(block_inputs(a_blocks[bi]), data)) + "]", n)
+
+    def agree_case(s, gs, o):
+        return f"agree_assign {zl(s)} {gs} {obs_lit(o)}"
+
+    def check_case(s, gs, o):
+        if gs < 1:
+            return "true"                                   # group size 0 is outside the property
+        if isinstance(o, str):
+            return "false"                                  # the function must be total for gs >= 1
+        return f"C14_assign_checkbZ {zl(s)} {gs} {zpairs(o)}"
+
+    k_res = eval_lists(ck, "c14k", [k_entry(g, "agree_block", agree_case) for g in k_groups])
+    # ---------------- stream A: random and hand-picked inputs ----------------
     a_cases = {}      # (sizes, gs, output) -> list of copies
-    for (sizes, gs), per in zip(a_inputs, a_out):
+    for (sizes, gs), per in zip(a_rand, a_out):
         for c, o in zip(COPIES, per):
             a_cases.setdefault((sizes, gs, o), []).append(c)
     a_keys = list(a_cases)
-    a_flat = eval_bools(ck, "c14a", [f"agree_assign {zl(s)} {gs} {obs_lit(o)}" for s, gs, o in a_keys])
-    a_bad = [k for k, b in zip(a_keys, a_flat) if b != "T"]
+
+    def a_item(key, packed_fn, case_fn):
+        s, gs, o = key
+        if _packable(o, len(s)):
+            return f"{packed_fn} {zl(s)} {gs} {zl([a * 64 + r for a, r in o])}"
+        return case_fn(s, gs, o)
+
+    a_flat = eval_bools(ck, "c14a", [a_item(k, "agree_packed", agree_case) for k in a_keys])
+    a_bad = [(s, gs, o, a_cases[(s, gs, o)]) for (s, gs, o), b in zip(a_keys, a_flat) if b != "T"]
+    for g, r in zip(k_groups, k_res):
+        if "F" in r:
+            bi, copies, kind, data = g
+            inputs = block_inputs(a_blocks[bi])
+            outs = unpack_outputs(inputs, data) if kind == "packed" else data
+            a_bad += [(s, a_blocks[bi][3], o, copies) for s, o, b in zip(inputs, outs, r) if b != "T"]
 
     # ---------------- stream B ----------------
-    b_cases = []      # (copy, numels, dt, gs, me, result)
+    b_cases = {}      # (numels, dt, gs, me, frozen result) -> copies
     for (numels, dt, gs, me), per in zip(b_inputs, b_out):
         for c, r in zip(COPIES, per):
-            b_cases.append((c, numels, dt, gs, me, r))
+            fr = ("exc", r["exc"]) if "exc" in r else (r["ok"], tuple(r["bsr"]), tuple(r["views"]), r["total"], r["local"])
+            b_cases.setdefault((numels, dt, gs, me, fr), []).append(c)
+    b_keys = list(b_cases)
 
-    def b_item(case):
-        c, numels, dt, gs, me, r = case
-        if "exc" in r:
+    def b_item(key):
+        numels, dt, gs, me, fr = key
+        if fr[0] == "exc":
             return "false"
-        return (f"andb {coq_bool(r['ok'])} (agree_buffers {zl(numels)} {DSIZE[dt]} {gs} {me} {zpairs(r['views'])} {r['total']} "
-                f"({r['local'][0]}, {r['local'][1]}))")
+        ok, bsr, views, total, local = fr
+        return f"andb {coq_bool(ok)} (agree_buffers_flat {zl(numels)} {DSIZE[dt]} {gs} {me} {flat(views)} {total} {local[0]} {local[1]})"
 
-    b_flat = eval_bools(ck, "c14b", [b_item(x) for x in b_cases])
-    b_bad = [x for x, b in zip(b_cases, b_flat) if b != "T"]
+    b_flat = eval_bools(ck, "c14b", [b_item(k) for k in b_keys])
+    b_bad = [k for k, b in zip(b_keys, b_flat) if b != "T"]
 
     # ---------------- stream C ----------------
     c_cases = []      # (job, p, result of that rank)
@@ -555,7 +658,7 @@ def run(ck: Check) -> None:
         sizes = zl([n * ds for n in r["numels"]])
         me = p % gs
         return (f"andb {coq_bool(r['ok'])} (andb (agree_selector {sizes} {gs} {me} {bl(r['sel'])}) (andb (agree_state {sizes} {gs} {R} {me} {state_lit(r['state'])}) "
-                f"(agree_buffers {zl(r['numels'])} {ds} {gs} {me} {zpairs(r['views'])} {r['total']} ({r['local'][0]}, {r['local'][1]}))))")
+                f"(agree_buffers_flat {zl(r['numels'])} {ds} {gs} {me} {flat(r['views'])} {r['total']} {r['local'][0]} {r['local'][1]})))")
 
     c_flat = eval_bools(ck, "c14c", [c_item(x) for x in c_cases])
     c_bad = [x for x, b in zip(c_cases, c_flat) if b != "T"]
@@ -563,71 +666,77 @@ def run(ck: Check) -> None:
 
     # ---------------- verdicts (DESIGN 2.4): certified checkers on the implementation's own output ----------------
     if a_bad:
-        def a_chk(k):
-            s, gs, o = k
-            if isinstance(o, str):
-                return "false" if gs >= 1 else "true"      # the function is total for gs >= 1; gs = 0 is outside the property
-            return f"C14_assign_checkbZ {zl(s)} {gs} {zpairs(o)}" if gs >= 1 else "true"
-        flat = eval_bools(ck, "c14a_chk", [a_chk(k) for k in a_keys])
-        failing = [k for k, b in zip(a_keys, flat) if b != "T"]
+        k_chk = eval_lists(ck, "c14k_chk", [k_entry(g, "check_block", check_case) for g in k_groups])
+        a_chk = eval_bools(ck, "c14a_chk", [a_item(k, "check_packed", check_case) if k[1] >= 1 else "true" for k in a_keys])
+        failing = [(s, gs, o, a_cases[(s, gs, o)]) for (s, gs, o), b in zip(a_keys, a_chk) if b != "T"]
+        for g, r in zip(k_groups, k_chk):
+            if "F" in r:
+                bi, copies, kind, data = g
+                inputs = block_inputs(a_blocks[bi])
+                outs = unpack_outputs(inputs, data) if kind == "packed" else data
+                failing += [(s, a_blocks[bi][3], o, copies) for s, o, b in zip(inputs, outs, r) if b != "T"]
         if failing:
-            failing.sort(key=lambda k: (len(k[0]), k[1], sum(k[0])))
-            s, gs, o = failing[0]
-            ck.report(None, f"_distribute_buffer_sizes ({'/'.join(sorted(set(a_cases[failing[0]])))} copy) violates C14 on sizes={list(s)} group_size={gs}: returned {o} "
+            failing.sort(key=lambda x: (len(x[0]), x[1], sum(x[0]), x[0]))
+            s, gs, o, copies = failing[0]
+            ck.report(None, f"_distribute_buffer_sizes ({'/'.join(sorted(set(copies)))} copy) violates C14 on sizes={list(s)} group_size={gs}: returned {o} "
                             f"(not the largest-first/least-loaded run with lexicographic ties, or unbalanced, or not aligned); {len(failing)} failing inputs",
-                      {"kind": "assign-property-fails", "copies": sorted(set(a_cases[failing[0]])), "sizes": list(s), "gs": gs, "impl": o,
+                      {"kind": "assign-property-fails", "copies": sorted(set(copies)), "sizes": list(s), "gs": gs, "impl": o,
                        "n_failing": len(failing), "n_disagreeing": len(a_bad), "predicate": "C14_assign_checkbZ (lpt_spec shape + balance)"})
         else:
-            s, gs, o = a_bad[0]
-            ck.report(None, f"model/implementation correspondence broken for _distribute_buffer_sizes ({len(a_bad)} cases, first: sizes={list(s)} gs={gs} -> {o}) "
+            a_bad.sort(key=lambda x: (len(x[0]), x[1], sum(x[0]), x[0]))
+            s, gs, o, copies = a_bad[0]
+            ck.report(None, f"model/implementation correspondence broken for _distribute_buffer_sizes ({len(a_bad)} cases, first: {'/'.join(sorted(set(copies)))} sizes={list(s)} gs={gs} -> {o}) "
                             "but every output still passes C14_assign_checkb",
-                      {"kind": "correspondence", "broken": "Assign.agree_assign", "copies": a_cases[a_bad[0]], "sizes": list(s), "gs": gs, "impl": o,
+                      {"kind": "correspondence", "broken": "Assign.agree_assign", "copies": sorted(set(copies)), "sizes": list(s), "gs": gs, "impl": o,
                        "theorems_not_transferring": ["C14_assign_total_deterministic", "C14_assign_is_lpt", "C14_lpt_gap_le_max", "C14_lpt_four_thirds"]},
                       no_failing_input=True)
     if b_bad:
-        def b_chk(case):
-            c, numels, dt, gs, me, r = case
-            if "exc" in r:
+        def b_chk(key):
+            numels, dt, gs, me, fr = key
+            if fr[0] == "exc":
                 return "false"
+            ok, bsr, views, total, local = fr
             sizes = zl([n * DSIZE[dt] for n in numels])
-            return f"andb {coq_bool(r['ok'])} (C14_checkbZ {sizes} {gs} {zpairs(r['bsr'])} {zpairs(r['views'])})"
-        flat = eval_bools(ck, "c14b_chk", [b_chk(x) for x in b_cases])
-        failing = [x for x, b in zip(b_cases, flat) if b != "T"]
+            if not _packable(bsr, len(numels)):
+                return "false"
+            return f"andb {coq_bool(ok)} (check_buffers_flat {sizes} {gs} {zl([a * 64 + r for a, r in bsr])} {flat(views)})"
+        flatb = eval_bools(ck, "c14b_chk", [b_chk(k) for k in b_keys])
+        failing = [k for k, b in zip(b_keys, flatb) if b != "T"]
         if failing:
-            failing.sort(key=lambda x: (len(x[1]), x[3], sum(x[1])))
-            c, numels, dt, gs, me, r = failing[0]
-            ck.report(None, f"buffer layout of the {c} copy violates C14 on numels={list(numels)} dtype={dt} group_size={gs} rank={me}: {r}; {len(failing)} failing inputs",
-                      {"kind": "buffers-property-fails", "copy": c, "numels": list(numels), "dt": dt, "gs": gs, "me": me, "impl": r, "n_failing": len(failing),
+            failing.sort(key=lambda x: (len(x[0]), x[2], sum(x[0]), x[0]))
+            numels, dt, gs, me, fr = failing[0]
+            copies = b_cases[failing[0]]
+            ck.report(None, f"buffer layout of the {'/'.join(copies)} copy violates C14 on numels={list(numels)} dtype={dt} group_size={gs} rank={me}: {fr}; {len(failing)} failing inputs",
+                      {"kind": "buffers-property-fails", "copy": copies[0], "copies": copies, "numels": list(numels), "dt": dt, "gs": gs, "me": me, "impl": fr, "n_failing": len(failing),
                        "predicate": "C14_checkbZ (views in owner segment, >= block bytes, 64-aligned, pairwise disjoint) and aliasing flags"})
         else:
-            c, numels, dt, gs, me, r = b_bad[0]
-            ck.report(None, f"model/implementation correspondence broken for _construct_distributed_buffers ({len(b_bad)} cases, first: {c} numels={list(numels)} {dt} gs={gs} me={me}) "
+            numels, dt, gs, me, fr = b_bad[0]
+            copies = b_cases[b_bad[0]]
+            ck.report(None, f"model/implementation correspondence broken for _construct_distributed_buffers ({len(b_bad)} cases, first: {'/'.join(copies)} numels={list(numels)} {dt} gs={gs} me={me}) "
                             "but every layout still passes C14_checkb",
-                      {"kind": "correspondence", "broken": "Assign.agree_buffers", "copy": c, "numels": list(numels), "dt": dt, "gs": gs, "me": me, "impl": r,
+                      {"kind": "correspondence", "broken": "Assign.agree_buffers", "copy": copies[0], "copies": copies, "numels": list(numels), "dt": dt, "gs": gs, "me": me, "impl": fr,
                        "theorems_not_transferring": ["C14_buffers_in_owner_segment", "C14_buffers_ge_block_bytes", "C14_buffers_disjoint_aligned"]}, no_failing_input=True)
     if c_bad:
         # property predicate on the observed cluster: selectors of each group partition the blocks, every local block is
         # owned by the rank that holds it and its state mesh has exactly the owner's position of every group
-        items, owners = [], []
+        items = []
         for job, res in zip(c_jobs, c_out):
             if any("exc" in r for r in res):
                 items.append("false")
-                owners.append(job)
                 continue
             gs, R = job["gs"], job["R"]
             n = len(res[0]["numels"])
             parts = []
             for g in range(R // gs):
-                parts.append(f"partitionb {n} [" + "; ".join(bl(res[g * gs + k]["sel"]) for k in range(gs)) + "]")
+                parts.append(f"partitionb {n}%nat [" + "; ".join(bl(res[g * gs + k]["sel"]) for k in range(gs)) + "]")
             for p, r in enumerate(res):
-                parts.append(coq_bool(r["ok"] and all(src == p % gs and r["sel"][i] for i, src, _ in r["state"])
-                                      and len(r["state"]) == sum(r["sel"])))
+                parts.append(coq_bool(r["ok"] and r["numels"] == res[0]["numels"] and len(r["state"]) == sum(r["sel"])
+                                      and all(src == p % gs and 0 <= i < n and r["sel"][i] for i, src, _ in r["state"])))
                 for i, src, pos in r["state"]:
                     parts.append(f"mesh_okb {src} {gs} {R} {zl(pos)}")
             items.append("forallb (fun b : bool => b) [" + "; ".join(parts) + "]")
-            owners.append(job)
-        flat = eval_bools(ck, "c14c_chk", items)
-        failing = [j for j, b in zip(owners, flat) if b != "T"]
+        flatc = eval_bools(ck, "c14c_chk", items)
+        failing = [j for j, b in zip(c_jobs, flatc) if b != "T"]
         if failing:
             failing.sort(key=lambda j: (j["R"], len(j["shapes"])))
             j = failing[0]
@@ -643,16 +752,28 @@ def run(ck: Check) -> None:
                        "theorems_not_transferring": ["C14_state_on_exactly_one_rank", "C14_state_mesh_one_per_group", "C14_buffers_disjoint_aligned"]}, no_failing_input=True)
 
     # ---------------- numerical evidence for the 4/3 constant (not a proof) ----------------
-    seen, worst, nopt, viol = set(), (0.0, None), 0, []
-    budget = 6000 if thorough else 1500
-    step = max(1, len(a_keys) // (4 * budget))
-    for s, gs, o in a_keys[::step]:
-        if isinstance(o, str) or not (1 <= len(s) <= 7) or gs < 1 or gs > 4:
+    cand = {}
+    for g in k_groups:
+        bi, copies, kind, data = g
+        gs = a_blocks[bi][3]
+        if gs < 2:
             continue
-        al = tuple(sorted(a for a, _ in o))
-        if (al, gs) in seen or sum(al) == 0:
-            continue
-        seen.add((al, gs))
+        inputs = block_inputs(a_blocks[bi])
+        outs = unpack_outputs(inputs, data) if kind == "packed" else data
+        for s, o in zip(inputs, outs):
+            if isinstance(o, str) or not (3 <= len(s) <= 7):
+                continue
+            al = tuple(sorted(a for a, _ in o))
+            if sum(al) and (al, gs) not in cand:
+                cand[(al, gs)] = (s, o)
+    for (s, gs, o) in a_keys:
+        if not isinstance(o, str) and 3 <= len(s) <= 9 and 2 <= gs <= 4:
+            cand.setdefault((tuple(sorted(a for a, _ in o)), gs), (s, o))
+    worst, nopt, viol = (0.0, None), 0, []
+    keys = sorted(cand, key=lambda k: (-len(k[0]), k))
+    budget = 8000 if thorough else 2500
+    for (al, gs) in keys[:budget]:
+        s, o = cand[(al, gs)]
         lpt = max(sum(a for a, r in o if r == k) for k in range(gs))
         opt = opt_makespan(al, gs)
         nopt += 1
@@ -660,8 +781,6 @@ def run(ck: Check) -> None:
             viol.append((s, gs, o, lpt, opt))
         if lpt / opt > worst[0]:
             worst = (lpt / opt, {"sizes": list(s), "gs": gs, "lpt": lpt, "opt": opt})
-        if nopt >= budget:
-            break
     if viol:
         s, gs, o, lpt, opt = viol[0]
         ck.report(None, f"Graham bound fails numerically on the implementation's output: sizes={list(s)} gs={gs} max_load={lpt} optimum={opt}",
@@ -677,36 +796,49 @@ def run(ck: Check) -> None:
     def nb(n):
         return n if n <= 8 else (16 if n <= 16 else (64 if n <= 64 else 256))
 
-    ties = sum(1 for s, gs, o in a_keys if not isinstance(o, str) and len({a for a, _ in o}) < len(o))
-    nontriv = {(s, gs) for s, gs, o in a_keys if not isinstance(o, str) and gs >= 2 and len(s) >= 2}
-    total_eval = len(a_inputs) * 3 + len(b_cases) + len(c_cases)
+    def gb(g):
+        return g if g <= 4 else (8 if g <= 8 else (16 if g <= 16 else 32))
+
+    n_block_cases = sum(len(v) ** k for _, v, k, _ in a_blocks)
+    blocks_hist, gs_hist = {}, {}
+    for prefix, vals, k, gs in a_blocks:
+        n = len(prefix) + k
+        blocks_hist[n] = blocks_hist.get(n, 0) + len(vals) ** k
+        gs_hist[gs] = gs_hist.get(gs, 0) + len(vals) ** k
+    for s, gs in a_rand:
+        blocks_hist[nb(len(s))] = blocks_hist.get(nb(len(s)), 0) + 1
+        gs_hist[gb(gs)] = gs_hist.get(gb(gs), 0) + 1
+    n_b = sum(len(v) for v in b_cases.values())
+    total_eval = 3 * (n_block_cases + len(a_rand)) + n_b + len(c_cases)
+    nontriv = (sum(len(v) ** k for p, v, k, gs in a_blocks if gs >= 2 and len(p) + k >= 2) + sum(1 for s, gs in a_rand if gs >= 2 and len(s) >= 2)
+               + sum(1 for k in b_keys if k[2] >= 2 and len(k[0]) >= 2) + sum(1 for j in c_jobs if j["gs"] >= 2))
     mid = a_keys[len(a_keys) // 2]
+    bmid = b_keys[len(b_keys) // 2]
     ck.coverage.update({
         "evaluations": total_eval,
-        "distinct_nontrivial": len(nontriv) + sum(1 for x in b_cases if x[3] >= 2 and len(x[1]) >= 2) + sum(1 for j, p, r in c_cases if j["gs"] >= 2),
-        "rule": (f"stream A: all lists over value sets {'V8^<=6, {64,100,128,192}^<=7' if thorough else 'V8^<=4, V6^<=5, {1,64,65,130}^<=6'} (V8={list(V8)}, V6={list(V6)}) x group sizes 1..4 (exhaustive) + group size 0 + random lists "
-                 f"(<= {256 if thorough else 64} blocks, groups <= {32 if thorough else 16}, numel x {{4,2}} bytes), each on the three copies (identical (input, output) pairs are evaluated once in Coq); "
-                 f"stream B: all lists of <= {4 if thorough else 3} numels over {list(N6)} x groups 1..4 x dtypes + random (three copies); stream C: random cluster scenarios, every rank of one replication group, three copies; "
-                 "non-trivial = group size >= 2 and >= 2 blocks"),
+        "distinct_nontrivial": nontriv,
+        "rule": (f"stream A: all lists over {'V8^<=6 and T4^7' if thorough else 'V8^<=4, V6^5, V4^5..6'} (V8={list(V8)}, V6={list(V6)}, V4={list(V4)}, T4={list(T4)}) x group sizes 1..4 (exhaustive; inputs enumerated inside Coq in "
+                 f"itertools.product order) + group size 0 + LPT worst-case families + random lists (<= {256 if thorough else 64} blocks, groups <= {32 if thorough else 16}, numel x {{4,2}} bytes), each on the three copies "
+                 f"(copies with identical outputs share one Coq evaluation); stream B: all lists of <= {4 if thorough else 3} numels over {list(N6)} x groups 1..4 x dtypes + random (three copies); "
+                 "stream C: random cluster scenarios, every rank of one replication group, three copies; evaluations = implementation calls compared; distinct_nontrivial = distinct inputs with group size >= 2 and >= 2 blocks"),
         "exhaustive": True,
         "samples": [
             {"stream": "A", "copies": a_cases[mid], "sizes": list(mid[0]), "gs": mid[1], "impl": mid[2] if isinstance(mid[2], str) else [list(x) for x in mid[2]]},
-            {"stream": "B", "copy": b_cases[len(b_cases) // 2][0], "numels": list(b_cases[len(b_cases) // 2][1]), "dtype": b_cases[len(b_cases) // 2][2], "gs": b_cases[len(b_cases) // 2][3],
-             "me": b_cases[len(b_cases) // 2][4], "impl": {k: v for k, v in b_cases[len(b_cases) // 2][5].items()}},
+            {"stream": "B", "copies": b_cases[bmid], "numels": list(bmid[0]), "dtype": bmid[1], "gs": bmid[2], "me": bmid[3], "impl": bmid[4]},
             {"stream": "C", "copy": c_cases[-1][0]["copy"], "gs": c_cases[-1][0]["gs"], "R": c_cases[-1][0]["R"], "position": c_cases[-1][1],
              "impl": {k: v for k, v in c_cases[-1][2].items() if k in ("numels", "sel", "state", "local", "total", "exc")}},
         ],
         "distribution": {
-            "A_inputs": len(a_inputs), "A_exhaustive_inputs": n_exh, "A_random_inputs": n_rnd, "A_distinct_coq_cases": len(a_keys),
-            "A_blocks": hist(nb(len(s)) for s, _ in a_inputs), "A_group_size": hist(min(gs, 17) if gs <= 16 else 32 for _, gs in a_inputs),
-            "A_cases_with_ties_after_alignment": ties,
-            "B_cases": len(b_cases), "B_exhaustive_inputs": nb_exh, "B_dtypes": hist(x[2] for x in b_cases), "B_blocks": hist(nb(len(x[1])) for x in b_cases),
-            "B_group_size": hist(x[3] if x[3] <= 4 else (8 if x[3] <= 8 else (16 if x[3] <= 16 else 32)) for x in b_cases),
+            "A_exhaustive_inputs": n_block_cases, "A_exhaustive_blocks": len(a_blocks), "A_other_inputs": len(a_rand), "A_coq_groups": len(k_groups), "A_copies_per_input": 3,
+            "A_blocks_per_input": {str(k): v for k, v in sorted(blocks_hist.items())}, "A_group_size": {str(k): v for k, v in sorted(gs_hist.items())},
+            "A_unpackable_block_groups": sum(1 for g in k_groups if g[2] != "packed"),
+            "B_impl_cases": n_b, "B_distinct_coq_cases": len(b_keys), "B_exhaustive_inputs": nb_exh, "B_dtypes": hist(k[1] for k in b_keys), "B_blocks": hist(nb(len(k[0])) for k in b_keys),
+            "B_group_size": hist(gb(k[2]) for k in b_keys),
             "C_scenarios": len(c_jobs), "C_rank_cases": len(c_cases), "C_copies": hist(j["copy"] for j in c_jobs), "C_group_size": hist(j["gs"] for j in c_jobs),
             "C_replicas": hist(j["R"] for j in c_jobs), "C_blocks": hist(nb(len(r.get("numels", []))) for _, _, r in c_cases),
         },
         "disagreements": {"A": len(a_bad), "B": len(b_bad), "C": len(c_bad)},
-        "graham_numeric_evidence": {"label": "evidence, not proof: brute-force optimum for <= 7 blocks, groups <= 4, on the implementation's outputs", "cases": nopt,
+        "graham_numeric_evidence": {"label": "evidence, not proof: brute-force optimum on the implementation's outputs (<= 7 blocks from the exhaustive scope, <= 9 from the hand-picked families; groups 2..4)", "cases": nopt,
                                     "max_ratio_lpt_over_opt": round(worst[0], 6), "worst_case": worst[1], "bound_checked": "3*gs*max_load <= (4*gs-1)*OPT", "violations": len(viol)},
     })
     ck.assumptions += [
@@ -714,6 +846,7 @@ def run(ck: Check) -> None:
         "sorted(..., reverse=True) is a stable descending sort (model: sort_desc)",
         "torch.split/Tensor.split/view/data_ptr behave as observed (views identified by storage pointer, byte offset and length)",
         "stream C: the sequential stand-ins for dist / get_device_mesh / dtensor_zeros / _mesh_resources in harness/c14.py reproduce DeviceMesh group semantics",
+        "coq/exec/RunC14.v (enumeration of the exhaustive inputs in itertools.product order, unpacking of aligned*64+rank) is part of the comparison machinery",
     ]
     ck.notes.append(f"phase times (s): coq build + Print Assumptions {t_props:.1f}, implementation runs {t_impl:.1f}, case evaluation in coqc {t_coq:.1f}")
     ck.notes.append("lpt_four_thirds is fully proved (sharp form 4/3 - 1/(3 gs)); the brute-force comparison is reported as evidence only")
@@ -728,7 +861,8 @@ def replay(obj) -> bool:
             print(c, "_distribute_buffer_sizes", obj["sizes"], "gs", obj["gs"], "->", _call_assign(*cl[c], obj["gs"], obj["sizes"]), "recorded", obj.get("impl"))
         return True
     if "numels" in obj:
-        print(obj["copy"], "buffers ->", _run_buffers(obj["copy"], obj["numels"], obj["dt"], obj["gs"], obj["me"]), "recorded", obj.get("impl"))
+        for c in obj.get("copies") or [obj["copy"]]:
+            print(c, "buffers ->", _run_buffers(c, obj["numels"], obj["dt"], obj["gs"], obj["me"]), "recorded", obj.get("impl"))
         return True
     if "job" in obj:
         j = obj["job"]
